@@ -6,6 +6,8 @@ import datetime as _dt
 import functools
 import random
 
+from vlib import tzcases as _T
+
 ID = "C16"
 PROPS = "Props/C16.v"
 RULE = ("months chosen so that all 28 month shapes (length 28..31 x weekday of the 1st) occur, drawn from a seed-rotated 400-year window, "
@@ -13,8 +15,14 @@ RULE = ("months chosen so that all 28 month shapes (length 28..31 x weekday of t
         "for each date: next/previous x (None + 7 weekdays) [x keep_time for DateTime], first_of/last_of x 3 units x (None + 7), "
         "nth_of x 3 units x 7 weekdays x n in 1..6 (month) / 1..15 (quarter) / 1..54 (year); Date and DateTime (naive, UTC, fixed offsets "
         "-23:59..+23:59; random times of day); tz-database zones: every day with a skipped local midnight in the sampled zones (found with "
-        "zoneinfo) x instances on/around that day and elsewhere in its month/quarter/year x fold 0/1 x times 00:00, inside the gap, noon "
-        "(oracle only, no model); n <= 0 and invalid weekdays as robustness streams; the `nth-max-year` stream is deterministic: year 9999, "
+        "zoneinfo) x instances on/around that day and elsewhere in its month/quarter/year x fold 0/1 x times 00:00, inside the gap, noon, and "
+        "for each such day g and each target T = g-6..g+6 the calls that reach T across g (zone-enumerated) -- each compared with the Coq "
+        "model Model/WeekdayZone.v run on the zone's table (wall fields, fold and utcoffset of the result and of the constructed instance) AND "
+        "with zoneinfo arithmetic; in the quick tier two of three year-unit nth_of zone cases are oracle-only (model budget); "
+        "`firstweekday`: process-wide configuration set before the call -- calendar.setfirstweekday(0..6) x Date/DateTime x first_of/last_of "
+        "(3 units, None + 7 weekdays) x nth_of (n = 1, 2), the setting is an argument of the case (self-contained replay) and is modelled "
+        "(fw_* functions; the configured calendar.monthcalendar itself is validated against calendar.Calendar(fw)); every result must be a "
+        "pendulum Date (not a datetime) / a pendulum DateTime; n <= 0 and invalid weekdays as robustness streams; the `nth-max-year` stream is deterministic: year 9999, "
         "the occurrences whose place would lie after 9999-12-31 (n just inside / just beyond the month, quarter, year, and n = 100, 400), "
         "Date and DateTime -- the region of the repaired finding nth-of-overflow-at-max-year.  A case is non-trivial when it is a distinct "
         "(function, arguments) tuple; each composite case carries 16..378 calls of the public API, every one compared with the Coq model "
@@ -23,9 +31,12 @@ EXHAUSTIVE = {"quick": False, "thorough": False}
 TRUSTED = ["CPython datetime.date / calendar.monthcalendar / zoneinfo are the specification side; Spec/Cal.v and the monthcalendar model mc_get "
            "are validated against them by the `cal-spec` stream every run",
            "DateTime in naive/UTC/fixed-offset zones is modelled by hand (zone = opaque identifier carried along, create() attaches it unchanged); "
-           "tz-database zones with transitions are covered by the stdlib oracle only"]
+           "DateTime in tz-database zones is modelled by Model/WeekdayZone.v over the zone table that tools/vlib/zones.py reads through the "
+           "pure-Python zoneinfo (window: December of the year before the instance .. January of the year after), create() = "
+           "Timezone.convert as modelled in Model/TzConvert.v (shared with C02/C04)"]
 ASSUMPTIONS = ["dt.format('YYYY-MM') / dt.format('%Y-%M') string equality is equality of (year, month): validated by the `format-check` stream every run",
-               "calendar.firstweekday() is the default (Monday); pendulum never changes it"]
+               "all streams but `firstweekday` run under the default calendar.firstweekday() (Monday); that stream sets every other value, "
+               "checks that pendulum leaves the setting alone, and restores it"]
 VM_SUBSET = 120
 
 MAXORD = 3652059
@@ -193,8 +204,27 @@ def cases(tier, seed):
             n = rnd.choice([55, 100, 400])
             out.append({"stream": "nth-large", "fn": "d_nth", "args": [u, y, m, d, [rnd.randrange(0, 7)], [n]]})
     out += _max_year_cases()
-    # tz-database zones (oracle only)
+    out += _firstweekday_cases(tier, rnd, dates, edges, zc)
+    # tz-database zones (model = Model/WeekdayZone.v on the zone's table, and the zoneinfo oracle)
     out += _zone_cases(tier, seed, rnd)
+    return out
+
+
+def _firstweekday_cases(tier, rnd, dates, edges, zc):
+    """Process-wide configuration set BEFORE the call: every value of calendar.setfirstweekday (0 = the default .. 6 = Sunday,
+    the usual US setting) x Date and DateTime instances (random month shapes, range edges) x first_of/last_of (3 units, None + 7
+    weekdays) and nth_of (3 units, 7 weekdays, n = 1, 2).  The setting is part of the case, so a replay is self-contained."""
+    out = []
+    k = 10 if tier == "thorough" else 3
+    seen = set()
+    for fw in range(7):
+        for (y, m, d) in rnd.sample(dates, k) + rnd.sample(edges, 1) + ([(9999, 12, 31), (1, 1, 1)] if fw in (0, 6) else []):
+            tod = rnd.choice([0, 86399999999, rnd.randrange(0, 86400000000)])
+            out.append({"stream": "firstweekday", "fn": "fw", "args": [fw, 0, y, m, d, 0, 0]})
+            out.append({"stream": "firstweekday", "fn": "fw", "args": [fw, 1, y, m, d, tod, rnd.choice(zc)]})
+            if (fw, y, m) not in seen:
+                seen.add((fw, y, m))
+                out.append({"stream": "firstweekday", "fn": "mcfw", "args": [fw, y, m]})
     return out
 
 
@@ -237,6 +267,15 @@ def _zone_cases(tier, seed, rnd):
         for _ in range(40 if thorough else 10):
             g = _dt.date.fromordinal(rnd.randrange(_dt.date(1990, 1, 1).toordinal(), _dt.date(2035, 1, 1).toordinal()))
             out += _around(zone, g, rnd, 6, "zone-control")
+    if not thorough:
+        # budget of the quick tier: a year-unit nth_of costs the model ~13 ms (up to 53 next() hops of up to 7 create() each),
+        # so two out of three of them are left to the oracle alone ("model": 0); every other zone case is modelled
+        k = 0
+        for c in out:
+            if c["args"][0] == 4 and c["args"][7] == 2:
+                k += 1
+                if k % 3:
+                    c["model"] = 0
     return out
 
 
@@ -336,6 +375,10 @@ class _CallTimeout(Exception):
     pass
 
 
+class _WrongResultType(Exception):
+    pass
+
+
 def _guarded(f):
     """run one public API call under an alarm: a call that does not terminate becomes an exception (kind 14), hence a violation"""
     import signal
@@ -352,8 +395,11 @@ def _guarded(f):
 
 
 def _canon_date(f):
+    import pendulum
     try:
         r = _guarded(f)
+        if not isinstance(r, pendulum.Date) or isinstance(r, _dt.datetime):
+            return [1, 15, 0, 0]          # the result of a Date method is not a pendulum Date
         return [0, r.year, r.month, r.day]
     except Exception as e:  # noqa
         return [1, EXC.get(type(e).__name__, 14), 0, 0]
@@ -385,8 +431,11 @@ def _tod(r):
 
 
 def _canon_dt(f):
+    import pendulum
     try:
         r = _guarded(f)
+        if not isinstance(r, pendulum.DateTime):
+            return [1, 15, 0, 0, 0, 0]    # the result of a DateTime method is not a pendulum DateTime
         return [0, r.year, r.month, r.day, _tod(r), _zcode(r)]
     except Exception as e:  # noqa
         return [1, EXC.get(type(e).__name__, 14), 0, 0, 0, 0]
@@ -413,6 +462,26 @@ def _apply(x, op, u, n, wd, keep, is_dt):
     if op == 3:
         return x.last_of(UNITS[u], wd)
     return x.nth_of(UNITS[u], n, wd)
+
+
+def _run_fw(a):
+    """one instance under calendar.setfirstweekday(fw): first_of/last_of x 3 units x (None + 7), nth_of x 3 units x 7 x n in (1, 2);
+    the process-wide setting is put back whatever happens"""
+    import pendulum
+    fw, cls, y, m, d, tod, z = a
+    prev = calendar.firstweekday()
+    calendar.setfirstweekday(fw)
+    try:
+        x = pendulum.Date(y, m, d) if cls == 0 else _mk_dt(y, m, d, tod, z)
+        canon = _canon_date if cls == 0 else _canon_dt
+        r = []
+        for (op, u, n, wd, keep) in _subcalls({"fn": "fw", "args": a}):
+            r += canon(lambda: _apply(x, op, u, n, wd, keep, cls == 1))
+        if calendar.firstweekday() != fw:
+            return [1, "FirstWeekdayChangedByPendulum"]
+        return r
+    finally:
+        calendar.setfirstweekday(prev)
 
 
 def impl_run(cases):
@@ -492,9 +561,16 @@ def impl_run(cases):
                 x = _mk_dt(y, m, d, tod, zone, fold=fold)
                 try:
                     r = _guarded(lambda: _apply(x, op, u, n, wd if hw else None, keep, True))
-                    out.append([0, r.year, r.month, r.day, _tod(r), r.timezone_name, x.year, x.month, x.day, _tod(x)])
+                    if not isinstance(r, pendulum.DateTime):
+                        raise _WrongResultType(type(r).__name__)
+                    out.append([0, r.year, r.month, r.day, _tod(r), r.timezone_name, x.year, x.month, x.day, _tod(x),
+                                r.fold, _T.off_s(r), x.fold])
                 except Exception as e:  # noqa
-                    out.append([1, type(e).__name__, 0, 0, 0, "", x.year, x.month, x.day, _tod(x)])
+                    out.append([1, type(e).__name__, 0, 0, 0, "", x.year, x.month, x.day, _tod(x), 0, 0, x.fold])
+            elif fn == "fw":
+                out.append(_run_fw(a))
+            elif fn == "mcfw":
+                out.append([0])
             else:
                 out.append([9])
         except Exception as e:  # noqa
@@ -559,7 +635,46 @@ def model_calls(c, backend):
         t = [y, m, d, 45296000001, 1]
         return [[("t_next", t + [1, wd, 0])], [("t_previous", t + [1, wd, 0])], [("t_first_of", [u] + t + [1, wd])],
                 [("t_last_of", [u] + t + [1, wd])], [("t_nth_of", [u, n] + t + [wd])]][op]
-    return None   # tz-database zones: no model (oracle only)
+    if fn == "z":
+        if c.get("model") == 0:
+            return None
+        op, zone, y, m, d, tod, fold, u, n, hw, wd, keep = a
+        return [("z_call", _zone_window(zone, y) + [op, y, m, d, tod, fold, u, n, hw, wd, keep])]
+    if fn == "fw":
+        fw, cls, y, m, d, tod, z = a
+        calls = []
+        for (op, u, n, wd, keep) in _subcalls(c):
+            if op == 2:
+                calls.append(("fw_first_of", [fw, u, y, m, d] + _w(wd)))
+            elif op == 3:
+                calls.append(("fw_last_of", [fw, u, y, m, d] + _w(wd)))
+            else:
+                calls.append(("fw_nth_of", [fw, u, n, y, m, d, wd]))
+        return calls
+    if fn == "mcfw":
+        fw, y, m = a
+        calls = [("fw_mc_rows", [fw, y, m])]
+        for i in range(-7, 7):
+            for col in MC_COLS:
+                calls.append(("fw_mc_get", [fw, y, m, i, col]))
+        return calls
+    return None
+
+
+MC_COLS = (-8, -7, -1, 0, 1, 2, 3, 4, 5, 6, 7)
+EXC_NAME = {v: k for k, v in EXC.items()}
+
+
+@functools.lru_cache(maxsize=4096)
+def _zone_window_t(zone, y):
+    lo = int(_dt.datetime(max(y - 1, 1), 12, 1, tzinfo=_dt.timezone.utc).timestamp())
+    hi = int(_dt.datetime(min(y + 1, 9999), 2, 1, tzinfo=_dt.timezone.utc).timestamp())
+    return tuple(_T.zone_enc(zone, lo, hi))
+
+
+def _zone_window(zone, y):
+    """the zone table from December of the year before the instance to January of the year after (no call leaves it)"""
+    return list(_zone_window_t(zone, y))
 
 
 def _pad(o, width):
@@ -592,6 +707,39 @@ def model_result(c, backend, outs):
     if fn == "fmt":
         same_ym = int(a[0] == a[3] and a[1] == a[4])
         return [0, same_ym, same_ym]
+    if fn == "z":
+        o = outs[0]
+        if o[0] == 0 and len(o) == 12:
+            return [0] + o[1:5] + [a[1]] + o[7:11] + [o[5], o[6], o[11]]
+        if o[0] == 1 and len(o) == 7:
+            return [1, EXC_NAME.get(o[1], str(o[1])), 0, 0, 0, ""] + o[2:6] + [0, 0, o[6]]
+        if o[0] == 1 and len(o) == 2:
+            return [1, EXC_NAME.get(o[1], str(o[1]))]
+        return [7] + o
+    if fn == "mcfw":
+        fw, y, m = a
+        mc = calendar.Calendar(fw).monthdayscalendar(y, m)
+        if outs[0] != [0, len(mc)]:
+            return [7, "rows", outs[0]]
+        k = 1
+        for i in range(-7, 7):
+            for col in MC_COLS:
+                try:
+                    exp = [0, mc[i][col]]
+                except IndexError:
+                    exp = [1, 4]
+                if outs[k] != exp:
+                    return [7, i, col, outs[k], exp]
+                k += 1
+        return [0]
+    if fn == "fw":
+        r = []
+        for o in outs:
+            if a[1] == 0:
+                r += _pad(o, 4)
+            else:
+                r += (o + [0, a[6]]) if o[0] == 0 else _pad(o, 6)     # the DateTime variant: same day, 00:00, zone kept
+        return r
     width = 4 if fn.startswith("d_") or (fn in ("nth0", "badwd") and a[0] == 0) else 6
     r = []
     for o in outs:
@@ -667,6 +815,8 @@ def _check_sub(exp, got, tod_exp=None, zone_exp=None):
         if got[0] == 1 and got[1] in v:
             return None
         return f"expected an exception of kind {sorted(v)}, got {got}"
+    if got[0] != 0 and got[1] == 15:
+        return f"expected {v.isoformat()}, but the value returned is not a pendulum Date / DateTime"
     if got[0] != 0:
         return f"expected {v.isoformat()}, raised exception kind {got[1]}"
     if got[1:4] != [v.year, v.month, v.day]:
@@ -696,6 +846,15 @@ def _subcalls(c):
                 yield (4, u, n, wd, 0)
     elif fn == "nth0":
         yield (4, a[1], a[2], a[6], 0)
+    elif fn == "fw":
+        for u in range(3):
+            for wd in WDOPTS:
+                yield (2, u, 0, wd, 0)
+                yield (3, u, 0, wd, 0)
+        for u in range(3):
+            for wd in range(7):
+                yield (4, u, 1, wd, 0)
+                yield (4, u, 2, wd, 0)
 
 
 def _nonexistent(zone, d, tod):
@@ -717,7 +876,7 @@ def _normalized(zone, d, tod):
 def _judge(c, backend, r):
     """-> (message, finding id or None) or None.  An unclassified failure takes precedence over a classified one."""
     fn, a = c["fn"], c["args"]
-    if fn in ("mc", "badwd"):
+    if fn in ("mc", "badwd", "mcfw"):
         return None
     if r and r[0] == 1 and len(r) == 2 and isinstance(r[1], str):
         return (f"harness-level exception {r[1]}", None)
@@ -726,11 +885,15 @@ def _judge(c, backend, r):
         return None if r == [0, same_ym, same_ym] else (f"format equality {r} but same (year, month) = {same_ym}", None)
     if fn == "z":
         return _judge_zone(c, r)
-    is_dt = fn.startswith("t_") or (fn == "nth0" and a[0] == 1)
+    is_dt = fn.startswith("t_") or (fn == "nth0" and a[0] == 1) or (fn == "fw" and a[1] == 1)
     width = 6 if is_dt else 4
+    fw = a[0] if fn == "fw" else 0
     if fn == "nth0":
         y, m, d = a[3:6]
         tod, z = 45296000001, 1
+    elif fn == "fw":
+        y, m, d = a[2:5]
+        tod, z = (a[5], a[6]) if is_dt else (None, None)
     elif fn in ("d_nth", "t_nth"):
         y, m, d = a[1:4]
         tod, z = (a[4], a[5]) if is_dt else (None, None)
@@ -745,7 +908,8 @@ def _judge(c, backend, r):
         why = _check_sub(exp, got, (tod if keep else 0) if is_dt else None, z)
         if why is None:
             continue
-        msg = f"{'DateTime' if is_dt else 'Date'}({y},{m},{d}).{['next','previous','first_of','last_of','nth_of'][op]}" \
+        msg = (f"after calendar.setfirstweekday({fw}): " if fn == "fw" else "") + \
+              f"{'DateTime' if is_dt else 'Date'}({y},{m},{d}).{['next','previous','first_of','last_of','nth_of'][op]}" \
               f"(unit={UNITS[u]}, n={n}, wd={wd}, keep_time={bool(keep)}): {why}"
         fid = None
         if op == 4 and n >= 1 and exp[0] == "raise" and got[0] == 1 and got[1] == 3 and y == 9999:
@@ -757,6 +921,12 @@ def _judge(c, backend, r):
                 fid = "nth-of-overflow-at-max-year"
         if op == 4 and n <= 0 and got[0] == 0 and got[1:4] == [_unit_bounds(u, inst)[0].year, _unit_bounds(u, inst)[0].month, 1]:
             fid = "nth-of-nonpositive-returns-first-day"
+        if fw != 0 and wd is not None and (op in (2, 3) or (op == 4 and n == 1)):
+            # calendar.setfirstweekday(fw) is in force: the month helpers index calendar.monthcalendar's rows (laid out from
+            # weekday fw) with the requested weekday and so answer for weekday (wd + fw) mod 7 -- exactly that answer, at
+            # 00:00 in the same zone, is the listed finding; anything else is not
+            if _check_sub(_expect(op, u, n, (wd + fw) % 7, inst), got, 0 if is_dt else None, z) is None:
+                fid = "calendar-firstweekday"
         if fid is None:
             return (msg, None)
         known_fail = known_fail or (msg, fid)
@@ -862,12 +1032,20 @@ LEVEL_TEXT = ("Machine-checked Coq theorems about an executable model of Date/Da
               "at full strength for every date of years 1..9999 (the year-9999 OverflowError defect is repaired; a regression is reported as a "
               "violation), DateTime variants equal the Date ones with time 00:00 (kept iff keep_time) and the zone kept; the model is tied "
               "to /repo by a boundary-heavy correspondence run in both backends; an independent datetime.date oracle incl. tz-database zones "
-              "with skipped midnights.")
+              "with skipped midnights.  DateTime in tz-database zones has its own model (every instance goes through Timezone.convert): proved "
+              "equal to the Date functions at 00:00 / the kept time in every zone that skips neither midnight nor the instance's time of day "
+              "(all fixed offsets), nth_of never hands out the walked instance (its answer went through start_of('day') last), refuted with "
+              "witnesses on the America/Sao_Paulo table where a midnight is skipped (finding skipped-midnight-day).  The month helpers under "
+              "calendar.setfirstweekday(fw) are modelled and proved to answer for weekday (wd + fw) mod 7: right for fw = 0 only "
+              "(finding calendar-firstweekday, refuted + partial theorems).")
 DESIGN_REF = "DESIGN.md section 4 C16"
 LEVEL_NOTE = ("Trusted: Coq kernel+VM, the hand model Model/Weekday.v (tied by correspondence every run, both backends; next/previous also by the translation "
               "Gen/WeekdayNav.v = model, Proofs/C16Gen.v), Spec/Cal.v as a model of "
-              "CPython's datetime/calendar (validated every run), extraction+driver (cross-checked with vm_compute). DateTime in tz-database zones "
-              "with transitions is covered by the oracle only (no model). Finding nth-of-overflow-at-max-year is fixed (nth_of catches the "
+              "CPython's datetime/calendar (validated every run), extraction+driver (cross-checked with vm_compute). DateTime in tz-database zones: "
+              "Model/WeekdayZone.v (z_* functions, inside the model; tied by the zone-* streams, both backends; the known() region of finding "
+              "skipped-midnight-day is now also bounded by the model: a result that differs from the model of the defect is a violation). "
+              "calendar.setfirstweekday: inside the model (fw_* functions, stream firstweekday). Oracle-only: two of three year-unit nth_of zone "
+              "cases of the quick tier (model budget; all are modelled in the thorough tier). Finding nth-of-overflow-at-max-year is fixed (nth_of catches the "
               "OverflowError of the stepping loop): its former _refuted/_partial theorems are replaced by nth_of_raises_pendulum_exception, "
               "nth_of_raises_nothing_else, nth_of_returns_nth_or_raises; the deterministic nth-max-year stream keeps the region exercised.")
 TECHNIQUE = ("Coq proof (lia with mod 7, induction on loop fuel / n, calendar bijection lemmas) over a hand model whose next/previous bodies are "
